@@ -199,9 +199,14 @@ class SyncedDict(SyncedCollection, MutableMapping):
                 with self._load_and_save:
                     self._update(data)
                 return
-            self._update(data)
-            with self._thread_lock:
+            # Hold the locks for the whole operation (not only the save) and
+            # take them in the same order as every other writer.
+            self._load_and_save._acquire_locks()
+            try:
+                self._update(data)
                 self._save()
+            finally:
+                self._load_and_save._release_locks()
         else:
             raise ValueError(
                 "Unsupported type: {}. The data must be a mapping or None.".format(
@@ -242,9 +247,14 @@ class SyncedDict(SyncedCollection, MutableMapping):
             with self._load_and_save:
                 self._data.clear()
             return
-        self._data = {}
-        with self._thread_lock:
+        # Hold the locks for the whole operation (not only the save) and take
+        # them in the same order as every other writer.
+        self._load_and_save._acquire_locks()
+        try:
+            self._data = {}
             self._save()
+        finally:
+            self._load_and_save._release_locks()
 
     def update(self, other=None, **kwargs):  # noqa: D102
         if other is not None:
